@@ -335,6 +335,14 @@ impl NetcodeServer {
 
         log::trace!("Connection request from Client {}", connect_token.client_id);
 
+        // A request with another connect token supersedes the half-open session of this address:
+        // the challenge above is for the new token, a response to it is sealed with the new keys.
+        if let Some(pending) = self.pending_clients.get(&addr) {
+            if pending.client_id != connect_token.client_id || pending.receive_key != connect_token.client_to_server_key {
+                self.pending_clients.remove(&addr);
+            }
+        }
+
         let pending = self.pending_clients.entry(addr).or_insert_with(|| Connection {
             confirmed: false,
             sequence: 0,
